@@ -230,6 +230,113 @@ Proof.
 Qed.
 Print Assumptions decode_wire_encode_partial.
 
+
+Theorem args_roundtrip : forall hdr ts vs rest,
+  Forall2 (has_type code_limits) ts vs ->
+  decode_seq hdr ts (encode_seq hdr ts vs ++ rest) = Ok (vs, rest).
+Proof.
+  intros hdr ts vs rest H. induction H as [|t v ts vs Hv _ IH]; [reflexivity|].
+  cbn [encode_seq decode_seq]. rewrite <- app_assoc, (decode_wire_encode_partial t hdr v _ Hv). cbn [bind].
+  rewrite IH. reflexivity.
+Qed.
+
+(* ---- a decoder consumes a prefix of its input ---- *)
+Definition suffix (rest bs : bytes) : Prop := exists used, bs = used ++ rest.
+Lemma suffix_refl bs : suffix bs bs. Proof. now exists []. Qed.
+Lemma suffix_trans a b c : suffix a b -> suffix b c -> suffix a c.
+Proof. intros [u ->] [w ->]. exists (w ++ u). now rewrite app_assoc. Qed.
+Lemma split_exact_spec n : forall bs a r, split_exact n bs = Some (a, r) -> bs = a ++ r.
+Proof.
+  induction n as [|n IH]; intros bs a r H; simpl in H.
+  - inversion H; reflexivity.
+  - destruct bs as [|b bs]; [discriminate|]. destruct (split_exact n bs) as [[a' r']|] eqn:E; [|discriminate].
+    inversion H; subst. rewrite (IH _ _ _ E). reflexivity.
+Qed.
+Lemma need_suffix n bs a r : need n bs = Ok (a, r) -> suffix r bs.
+Proof. unfold need. destruct (split_exact n bs) as [[a' r']|] eqn:E; [|discriminate]. intros H; inversion H; subst. exists a. now apply split_exact_spec in E. Qed.
+Lemma get_u_suffix n bs x r : get_u n bs = Ok (x, r) -> suffix r bs.
+Proof. unfold get_u. destruct (need n bs) as [[a r']|] eqn:E; [|discriminate]. cbn [bind]. intros H; inversion H; subst. eapply need_suffix; eauto. Qed.
+Lemma get_s_suffix n bs x r : get_s n bs = Ok (x, r) -> suffix r bs.
+Proof. unfold get_s. destruct (need n bs) as [[a r']|] eqn:E; [|discriminate]. cbn [bind]. intros H; inversion H; subst. eapply need_suffix; eauto. Qed.
+Lemma read_upto_suffix n bs : suffix (snd (read_upto n bs)) bs.
+Proof. unfold read_upto. cbn [snd]. exists (firstn n bs). now rewrite firstn_skipn. Qed.
+
+Ltac bind_inv H :=
+  match type of H with
+  | bind ?c _ = Ok _ => let E := fresh "E" in destruct c as [[? ?]|] eqn:E; cbn [bind] in H; [|discriminate H]
+  end.
+
+Lemma plen_blob_suffix bs n r : plen_blob bs = Ok (n, r) -> suffix r bs.
+Proof.
+  unfold plen_blob. intros H. bind_inv H. destruct (_ =? 255).
+  - eapply suffix_trans; [eapply get_u_suffix; eauto|eapply get_u_suffix; eauto].
+  - inversion H; subst. eapply get_u_suffix; eauto.
+Qed.
+Lemma plen_string_suffix bs n r : plen_string bs = Ok (n, r) -> suffix r bs.
+Proof.
+  unfold plen_string. intros H. bind_inv H. destruct (_ =? 255).
+  - bind_inv H. bind_inv H. inversion H; subst.
+    eapply suffix_trans; [eapply need_suffix; eauto|]. eapply suffix_trans; eapply get_u_suffix; eauto.
+  - inversion H; subst. eapply get_u_suffix; eauto.
+Qed.
+
+Theorem decode_consumes_prefix : forall t hdr bs v rest,
+  decode hdr t bs = Ok (v, rest) -> suffix rest bs.
+Proof.
+  induction t as [w|w| | |n| | | | |e sz IH|fs an IH|t IH] using dtype_ind'; intros hdr bs v rest H; cbn [decode] in H.
+  - bind_inv H. inversion H; subst. eapply get_u_suffix; eauto.
+  - bind_inv H. inversion H; subst. eapply get_s_suffix; eauto.
+  - bind_inv H. inversion H; subst. eapply need_suffix; eauto.
+  - bind_inv H. inversion H; subst. eapply need_suffix; eauto.
+  - bind_inv H. inversion H; subst. eapply need_suffix; eauto.
+  - (* String *) bind_inv H. pose proof (read_upto_suffix (N.to_nat n) b) as S. destruct (read_upto (N.to_nat n) b) as [p r''].
+    inversion H; subst. eapply suffix_trans; [exact S|eapply plen_string_suffix; eauto].
+  - (* Blob *) bind_inv H. pose proof (read_upto_suffix (N.to_nat n) b) as S. destruct (read_upto (N.to_nat n) b) as [p r''].
+    destruct (Nat.eqb _ _); [|discriminate]. inversion H; subst. eapply suffix_trans; [exact S|eapply plen_blob_suffix; eauto].
+  - (* Python *) unfold plen_py in H. bind_inv H. pose proof (read_upto_suffix (N.to_nat n) b) as S. destruct (read_upto (N.to_nat n) b) as [p r''].
+    inversion H; subst. eapply suffix_trans; [exact S|eapply get_u_suffix; eauto].
+  - (* Mailbox *) pose proof (read_upto_suffix 4 bs) as S. destruct (read_upto 4 bs) as [ip r]. destruct (Nat.eqb _ _); [|discriminate].
+    bind_inv H. inversion H; subst. eapply suffix_trans; [eapply need_suffix; eauto|exact S].
+  - (* Array *)
+    set (loop := fix loop (n : nat) (bs : bytes) {struct n} : result (list value * bytes) :=
+        match n with
+        | O => Ok ([], bs)
+        | S n' => '(v, r) <- decode hdr e bs ;; '(vs, r') <- loop n' r ;; Ok (v :: vs, r')
+        end) in H.
+    assert (Hloop : forall n bs vs r, loop n bs = Ok (vs, r) -> suffix r bs).
+    { induction n as [|n IHn]; intros bs0 vs r Hl; cbn [loop] in Hl; fold loop in Hl.
+      - inversion Hl; subst. apply suffix_refl.
+      - bind_inv Hl. bind_inv Hl. inversion Hl; subst.
+        eapply suffix_trans; [eapply IHn; eauto|eapply IH; eauto]. }
+    destruct sz as [n|].
+    + bind_inv H. inversion H; subst. eapply Hloop; eauto.
+    + bind_inv H. bind_inv H. inversion H; subst. eapply suffix_trans; [eapply Hloop; eauto|eapply get_u_suffix; eauto].
+  - (* Dict *)
+    set (fields := fix fields (fl : list (string * dtype)) (bs : bytes) {struct fl} : result (list (string * value) * bytes) :=
+        match fl with
+        | [] => Ok ([], bs)
+        | (k, t') :: fl' => '(v, r) <- decode hdr t' bs ;; '(vs, r') <- fields fl' r ;; Ok ((k, v) :: vs, r')
+        end) in H.
+    assert (Hf : forall bs vs r, fields fs bs = Ok (vs, r) -> suffix r bs).
+    { clear H. induction IH as [|[k t'] fs' Hk _ IHfs]; intros bs0 vs r Hl; cbn [fields] in Hl; fold fields in Hl.
+      - inversion Hl; subst. apply suffix_refl.
+      - bind_inv Hl. bind_inv Hl. inversion Hl; subst. cbn [snd] in Hk.
+        eapply suffix_trans; [eapply IHfs; eauto|eapply Hk; eauto]. }
+    assert (Hbody : forall bs0, ('(vs, r) <- fields fs bs0 ;; Ok (VDict fs vs, r)) = Ok (v, rest) -> suffix rest bs0).
+    { intros bs0 Hb. bind_inv Hb. inversion Hb; subst. eapply Hf; eauto. }
+    destruct an.
+    + destruct bs as [|b r]; [now apply Hbody|].
+      destruct (b2n b =? 0).
+      * inversion H; subst. exists [b]. reflexivity.
+      * destruct (b2n b =? 1); [|now apply Hbody].
+        eapply suffix_trans; [apply Hbody; exact H|]. exists [b]. reflexivity.
+    + now apply Hbody.
+  - (* User *) destruct (is_blob t).
+    + eapply IH; eauto.
+    + eapply suffix_trans; [eapply IH; eauto|apply read_upto_suffix].
+Qed.
+Print Assumptions decode_consumes_prefix.
+
 (* the full statement (spec limits) fails exactly where the library's length readers deviate *)
 Definition full_statement (t : dtype) (v : value) (rest : bytes) :=
   has_type spec_limits t v -> decode 1 t (wire_encode 1 t v ++ rest) = Ok (v, rest).
